@@ -16,6 +16,12 @@ package main
 //	                               with c != 0 established (a non-empty literal occurs in v, so v is not empty)
 //	           lenGeLen v p  from  len(v) >= len(p) …
 //	           idxIn i v     from  i := strings.Index*(v, …) with i >= 0 established (such an index is < len(v))
+//	           varLeLen i v  from  len(v) >= i, !(len(v) < i) … where both sides may stand inside a conversion that keeps the
+//	                               value on a 64-bit platform: uint64(len(v)) / int(len(v)), int(i) / uint64(i) for i of an
+//	                               unsigned type of at most 32 bits
+//	           defPlus i k T from  i := k + E or E + k with k a constant and E = binary.BigEndian.Uint32 / Uint16(…), possibly
+//	                               converted: T is the TYPE THE SUM IS COMPUTED IN — u32 (uint32: the sum wraps modulo 2^32)
+//	                               or wide (int, int64, uint64: no wrap for k, E < 2^32).  Listed at a site whose bound is i.
 //	         Facts come from: the condition of an enclosing `if` / `for`, the negation of the condition of an earlier `if`
 //	         whose body leaves (return / break / continue / goto / panic), the left operand of `&&` (as is) and of `||`
 //	         (negated).  An assignment to a variable (=, :=, op=, ++, --, range / for variables, a variable assigned
@@ -26,6 +32,11 @@ package main
 // Lemmas/UserInput.lean IdxSite.ok_safe).  Syntactic, no type checker: types are resolved from the declarations of the
 // package (struct fields, named types, parameters, := from make / literals / a few strings.* functions).
 // Fails ("BROKEN TIE") when a package has no site at all or hasPort's `host[0]` is not found (extractor blind).
+//
+// pkg/ssh (the ssh tunnel gateway: whoever reaches its port and passes — or needs no — public-key authentication chooses
+// the bytes of every global and channel request) is extracted the same way into a list of its own, `sshSites`, together with
+// `sshExecEnd` (the defPlus fact of handleNewChannel's `end`), the ssh.Unmarshal calls with the field types of their target
+// and whether the error is tested, the `go` statements of the package and its number of recover() calls.
 
 import (
 	"fmt"
@@ -44,9 +55,10 @@ func init() { generators["IndexFacts"] = genIndexFacts }
 var ixPackages = []string{"pkg/util/http", "pkg/util/vhost", "pkg/util/tcpmux"}
 
 type ixFact struct {
-	kind string // lenGe | lenGeLen | idxIn
+	kind string // lenGe | lenGeLen | idxIn | varLeLen | defPlus
 	a, b string
 	n    int
+	t    string // defPlus: the type the sum is computed in (u32 | wide)
 }
 
 func (f ixFact) lean() string {
@@ -55,6 +67,10 @@ func (f ixFact) lean() string {
 		return fmt.Sprintf(".lenGe %s %d", agLeanStr(f.a), f.n)
 	case "lenGeLen":
 		return fmt.Sprintf(".lenGeLen %s %s", agLeanStr(f.a), agLeanStr(f.b))
+	case "varLeLen":
+		return fmt.Sprintf(".varLeLen %s %s", agLeanStr(f.a), agLeanStr(f.b))
+	case "defPlus":
+		return fmt.Sprintf(".defPlus %s %d .%s", agLeanStr(f.a), f.n, f.t)
 	}
 	return fmt.Sprintf(".idxIn %s %s", agLeanStr(f.a), agLeanStr(f.b))
 }
@@ -176,6 +192,27 @@ var ixExtFields = map[string]string{
 }
 var ixExtMaps = map[string]bool{"http.Header": true, "url.Values": true, "textproto.MIMEHeader": true}
 
+// golang.org/x/crypto/ssh as pkg/ssh uses it (read from the module source): results of functions / methods, fields
+var ixExtResults = map[string][]string{
+	"ssh.NewServerConn":     {"*ssh.ServerConn", "<-chan ssh.NewChannel", "<-chan *ssh.Request", "error"},
+	"ssh.NewChannel.Accept": {"ssh.Channel", "<-chan *ssh.Request", "error"},
+	"binary.BigEndian.Uint16": {"uint16"}, "binary.BigEndian.Uint32": {"uint32"}, "binary.BigEndian.Uint64": {"uint64"},
+	"binary.LittleEndian.Uint16": {"uint16"}, "binary.LittleEndian.Uint32": {"uint32"}, "binary.LittleEndian.Uint64": {"uint64"},
+}
+
+func init() {
+	for k, v := range map[string]string{
+		"ssh.ServerConn.Permissions": "*ssh.Permissions", "ssh.Permissions.Extensions": "map[string]string",
+		"ssh.Permissions.CriticalOptions": "map[string]string",
+		"ssh.Request.Payload": "[]byte", "ssh.Request.Type": "string", "ssh.Request.WantReply": "bool",
+	} {
+		ixExtFields[k] = v
+	}
+}
+
+var ixNumConv = map[string]bool{"int": true, "int8": true, "int16": true, "int32": true, "int64": true, "uint": true, "uint8": true, "uint16": true,
+	"uint32": true, "uint64": true, "byte": true, "uintptr": true}
+
 func ixParseType(s string) ast.Expr {
 	e, err := parser.ParseExpr(s)
 	if err != nil {
@@ -226,8 +263,12 @@ func (w *ixWalker) resultType(call *ast.CallExpr, idx int) ast.Expr {
 			}
 		case "string":
 			return ixIdent("string")
-		case "len", "cap", "int", "int64", "copy":
+		case "len", "cap", "int", "copy":
 			return ixIdent("int")
+		case "int8", "int16", "int32", "int64", "uint", "uint8", "uint16", "uint32", "uint64", "byte", "uintptr":
+			if _, shadow := w.env[f.Name]; !shadow && len(call.Args) == 1 {
+				return ixIdent(f.Name)
+			}
 		case "append":
 			if len(call.Args) > 0 {
 				return w.typeOf(call.Args[0])
@@ -260,6 +301,15 @@ func (w *ixWalker) resultType(call *ast.CallExpr, idx int) ast.Expr {
 				return ixIdent("int")
 			case p.Name == "net" && f.Sel.Name == "SplitHostPort" && idx < 2:
 				return ixIdent("string")
+			}
+		}
+		// a function / method of a package outside the tree whose results were read from its source
+		if rs, ok := ixExtResults[w.src(f)]; ok && idx < len(rs) {
+			return ixParseType(rs[idx])
+		}
+		if rt := w.deref(w.typeOf(f.X)); rt != nil {
+			if rs, ok := ixExtResults[w.src(rt)+"."+f.Sel.Name]; ok && idx < len(rs) {
+				return ixParseType(rs[idx])
 			}
 		}
 		if f.Sel.Name == "DecodeString" && idx == 0 { // base64.*Encoding.DecodeString
@@ -322,6 +372,11 @@ func (w *ixWalker) typeOf(e ast.Expr) ast.Expr {
 		return w.typeOf(x.X)
 	case *ast.BinaryExpr:
 		if x.Op == token.ADD {
+			if _, untyped := ixIntLit(x.X); untyped { // k + e: an untyped constant takes the type of the other operand
+				if t := w.typeOf(x.Y); t != nil {
+					return t
+				}
+			}
 			return w.typeOf(x.X)
 		}
 	case *ast.IndexExpr:
@@ -431,6 +486,95 @@ func (w *ixWalker) lenArg(e ast.Expr) (string, bool) {
 	return "", false
 }
 
+func ixStripParen(e ast.Expr) ast.Expr {
+	for {
+		p, ok := e.(*ast.ParenExpr)
+		if !ok {
+			return e
+		}
+		e = p.X
+	}
+}
+
+// T(x) for a predeclared numeric type T that is not shadowed: (T, x)
+func (w *ixWalker) numConv(e ast.Expr) (string, ast.Expr, bool) {
+	if c, ok := ixStripParen(e).(*ast.CallExpr); ok && len(c.Args) == 1 {
+		if id, ok := c.Fun.(*ast.Ident); ok && ixNumConv[id.Name] {
+			if _, shadow := w.env[id.Name]; !shadow {
+				return id.Name, c.Args[0], true
+			}
+		}
+	}
+	return "", nil, false
+}
+
+var ixWide = map[string]bool{"int": true, "int64": true, "uint64": true} // 64 bits on the platforms the harness runs on
+
+// len(v), also inside a conversion that keeps the value (a length is >= 0 and below 2^63)
+func (w *ixWalker) lenArgConv(e ast.Expr) (string, bool) {
+	e = ixStripParen(e)
+	if v, ok := w.lenArg(e); ok {
+		return v, true
+	}
+	if t, in, ok := w.numConv(e); ok && (ixWide[t] || t == "uint") {
+		return w.lenArg(ixStripParen(in))
+	}
+	return "", false
+}
+
+func ixTypeName(t ast.Expr) string {
+	if id, ok := t.(*ast.Ident); ok {
+		return id.Name
+	}
+	return ""
+}
+
+// a variable compared in its own type, or inside a conversion that keeps its value: T(i) with T of 64 bits and i of an
+// unsigned type of at most 32 bits
+func (w *ixWalker) varConv(e ast.Expr) (string, bool) {
+	e = ixStripParen(e)
+	if id, ok := e.(*ast.Ident); ok && id.Name != "_" && id.Name != "nil" && id.Name != "true" && id.Name != "false" {
+		return id.Name, true
+	}
+	if t, in, ok := w.numConv(e); ok && ixWide[t] {
+		if id, ok := ixStripParen(in).(*ast.Ident); ok {
+			switch ixTypeName(w.typeOf(id)) {
+			case "uint32", "uint16", "uint8", "byte":
+				return id.Name, true
+			}
+		}
+	}
+	return "", false
+}
+
+// E of `k + E`: binary.BigEndian.Uint32 / Uint16(…), possibly converted; the class of the type the sum is computed in
+func (w *ixWalker) sumType(e ast.Expr) (string, bool) {
+	e = ixStripParen(e)
+	src := func(x ast.Expr) string {
+		if c, ok := ixStripParen(x).(*ast.CallExpr); ok {
+			if rs, ok := ixExtResults[w.src(c.Fun)]; ok && len(rs) == 1 && (rs[0] == "uint32" || rs[0] == "uint16") {
+				return rs[0]
+			}
+		}
+		return ""
+	}
+	if t := src(e); t != "" {
+		if t == "uint32" {
+			return "u32", true
+		}
+		return "", false // uint16 arithmetic wraps at 2^16: nothing is concluded
+	}
+	if t, in, ok := w.numConv(e); ok && src(in) != "" {
+		switch {
+		case ixWide[t]:
+			return "wide", true
+		case t == "uint32":
+			return "u32", true
+		}
+	}
+	return "", false
+}
+
 func (w *ixWalker) bound(e ast.Expr) string {
 	if p, ok := e.(*ast.ParenExpr); ok {
 		return w.bound(p.X)
@@ -526,8 +670,28 @@ func (w *ixWalker) factsOf(cond ast.Expr, truth bool, st *ixState) []ixFact {
 				l, r = r, l
 				op = ixMirror(op)
 			}
+			if _, ok := w.lenArgConv(l); !ok {
+				if _, ok := w.lenArgConv(r); ok { // i <= len(v): the length to the left
+					l, r = r, l
+					op = ixMirror(op)
+				}
+			}
 			var out []ixFact
+			varCmp := func(v string) []ixFact {
+				if i, ok := w.varConv(r); ok && !ixMentions(v, i) {
+					switch op {
+					case token.GEQ, token.GTR, token.EQL:
+						return []ixFact{{kind: "varLeLen", a: i, b: v}}
+					}
+				}
+				return nil
+			}
 			if v, ok := w.lenArg(l); ok {
+				if _, isLit := ixIntLit(r); !isLit {
+					if _, isLen := w.lenArg(r); !isLen {
+						return varCmp(v)
+					}
+				}
 				if n, ok := ixIntLit(r); ok {
 					switch {
 					case op == token.GEQ && n >= 0, op == token.EQL && n >= 0:
@@ -548,6 +712,9 @@ func (w *ixWalker) factsOf(cond ast.Expr, truth bool, st *ixState) []ixFact {
 					}
 				}
 				return out
+			}
+			if v, ok := w.lenArgConv(l); ok {
+				return varCmp(v)
 			}
 			if bl, ok := r.(*ast.BasicLit); ok && bl.Kind == token.STRING {
 				if s, err := strconv.Unquote(bl.Value); err == nil {
@@ -579,7 +746,7 @@ func (w *ixWalker) factsOf(cond ast.Expr, truth bool, st *ixState) []ixFact {
 	return nil
 }
 
-func (w *ixWalker) site(e ast.Expr, x ast.Expr, shape string, st *ixState) {
+func (w *ixWalker) site(e ast.Expr, x ast.Expr, shape string, st *ixState, bounds ...ast.Expr) {
 	// not an index: a generic instantiation / a type expression
 	if id, ok := x.(*ast.Ident); ok {
 		if _, isFn := w.pkg.funcs[id.Name]; isFn {
@@ -593,6 +760,17 @@ func (w *ixWalker) site(e ast.Expr, x ast.Expr, shape string, st *ixState) {
 	for f := range st.facts {
 		if f.a == operand || f.b == operand {
 			fs = append(fs, f)
+			continue
+		}
+		if f.kind == "defPlus" { // how a bound of this site was computed
+			for _, b := range bounds {
+				if b != nil {
+					if id, ok := ixStripParen(b).(*ast.Ident); ok && id.Name == f.a {
+						fs = append(fs, f)
+						break
+					}
+				}
+			}
 		}
 	}
 	sort.Slice(fs, func(i, j int) bool { return fs[i].lean() < fs[j].lean() })
@@ -619,7 +797,7 @@ func (w *ixWalker) expr(e ast.Node, st *ixState) {
 	case *ast.IndexExpr:
 		w.expr(x.X, st)
 		w.expr(x.Index, st)
-		w.site(x, x.X, ".index ("+w.bound(x.Index)+")", st)
+		w.site(x, x.X, ".index ("+w.bound(x.Index)+")", st, x.Index)
 	case *ast.SliceExpr:
 		w.expr(x.X, st)
 		opt := func(b ast.Expr) string {
@@ -633,7 +811,7 @@ func (w *ixWalker) expr(e ast.Node, st *ixState) {
 		if x.Max != nil {
 			hi = "(some (.other " + agLeanStr("3-index slice") + "))"
 		}
-		w.site(x, x.X, ".slice "+lo+" "+hi, st)
+		w.site(x, x.X, ".slice "+lo+" "+hi, st, x.Low, x.High)
 	case *ast.FuncLit:
 		sub := &ixWalker{fset: w.fset, rel: w.rel, fn: w.fn + ">func", pkg: w.pkg, env: map[string]ast.Expr{}, out: w.out}
 		for k, v := range w.env {
@@ -832,6 +1010,26 @@ func (w *ixWalker) assign(x *ast.AssignStmt, st *ixState) *ixState {
 				delete(w.env, id.Name)
 			}
 		}
+		if len(x.Rhs) == len(x.Lhs) && (x.Tok == token.DEFINE || x.Tok == token.ASSIGN) {
+			if be, ok := ixStripParen(x.Rhs[i]).(*ast.BinaryExpr); ok && be.Op == token.ADD {
+				kx, ex := be.X, be.Y
+				if _, ok := ixIntLit(kx); !ok {
+					kx, ex = be.Y, be.X
+				}
+				if k, ok := ixIntLit(kx); ok && k >= 0 {
+					mentions := false
+					ast.Inspect(ex, func(n ast.Node) bool {
+						if idn, ok := n.(*ast.Ident); ok && idn.Name == id.Name {
+							mentions = true
+						}
+						return true
+					})
+					if t, ok := w.sumType(ex); ok && !mentions {
+						st.facts[ixFact{kind: "defPlus", a: id.Name, n: k, t: t}] = true
+					}
+				}
+			}
+		}
 		if len(x.Rhs) == len(x.Lhs) && x.Tok != token.ADD_ASSIGN {
 			if c, ok := x.Rhs[i].(*ast.CallExpr); ok {
 				if sel, ok := c.Fun.(*ast.SelectorExpr); ok {
@@ -973,9 +1171,12 @@ func (w *ixWalker) stmt(s ast.Stmt, st *ixState) *ixState {
 			}
 		}
 		if id, ok := x.Key.(*ast.Ident); ok && x.Tok == token.DEFINE {
-			if t, ok := w.underlying(w.typeOf(x.X), 0).(*ast.MapType); ok {
+			switch t := w.underlying(w.typeOf(x.X), 0).(type) {
+			case *ast.MapType:
 				w.env[id.Name] = t.Key
-			} else {
+			case *ast.ChanType: // for v := range ch: the ELEMENT
+				w.env[id.Name] = t.Value
+			default:
 				w.env[id.Name] = ixIdent("int")
 			}
 		}
@@ -1039,13 +1240,14 @@ func (w *ixWalker) stmt(s ast.Stmt, st *ixState) *ixState {
 	return ixNew()
 }
 
-func genIndexFacts(repo, out string) error {
-	fset := token.NewFileSet()
+// every site of the non-test files of the given package directories; with the parsed files of each
+func ixCollect(repo string, fset *token.FileSet, dirs []string) ([]ixSite, map[string]*ast.File, error) {
 	var sites []ixSite
-	for _, dir := range ixPackages {
+	all := map[string]*ast.File{}
+	for _, dir := range dirs {
 		ents, err := os.ReadDir(filepath.Join(repo, dir))
 		if err != nil {
-			return err
+			return nil, nil, err
 		}
 		pkg := &ixPkg{structs: map[string]*ast.StructType{}, named: map[string]ast.Expr{}, funcs: map[string]*ast.FuncDecl{}, vars: map[string]ast.Expr{},
 			imports: map[string]bool{}}
@@ -1059,9 +1261,10 @@ func genIndexFacts(repo, out string) error {
 			rel := dir + "/" + n
 			f, err := parser.ParseFile(fset, filepath.Join(repo, rel), nil, 0)
 			if err != nil {
-				return err
+				return nil, nil, err
 			}
 			files[rel] = f
+			all[rel] = f
 			rels = append(rels, rel)
 			for _, im := range f.Imports {
 				p, _ := strconv.Unquote(im.Path.Value)
@@ -1124,8 +1327,41 @@ func genIndexFacts(repo, out string) error {
 			}
 		}
 		if len(sites) == before {
-			return fail("%s: no index / slice expression found (extractor blind?)", dir)
+			return nil, nil, fail("%s: no index / slice expression found (extractor blind?)", dir)
 		}
+	}
+	sort.SliceStable(sites, func(i, j int) bool {
+		if sites[i].file != sites[j].file {
+			return sites[i].file < sites[j].file
+		}
+		return sites[i].line < sites[j].line
+	})
+	return sites, all, nil
+}
+
+func ixWriteSites(b *strings.Builder, sites []ixSite) {
+	b.WriteString("  [")
+	for i, s := range sites {
+		if i > 0 {
+			b.WriteString(",\n   ")
+		}
+		fs := make([]string, len(s.facts))
+		for k, f := range s.facts {
+			fs[k] = f.lean()
+		}
+		fmt.Fprintf(b, "⟨%s, %s, %d, %s, %s, .%s, %s, [%s]⟩", agLeanStr(s.file), agLeanStr(s.fn), s.line, agLeanStr(s.expr), agLeanStr(s.operand),
+			s.opKind, s.shape, strings.Join(fs, ", "))
+	}
+	b.WriteString("]\n")
+}
+
+var ixSSHPackages = []string{"pkg/ssh"}
+
+func genIndexFacts(repo, out string) error {
+	fset := token.NewFileSet()
+	sites, _, err := ixCollect(repo, fset, ixPackages)
+	if err != nil {
+		return err
 	}
 	found := false
 	for _, s := range sites {
@@ -1136,29 +1372,176 @@ func genIndexFacts(repo, out string) error {
 	if !found {
 		return fail("pkg/util/http/http.go hasPort: `host[0]` not found")
 	}
-	sort.SliceStable(sites, func(i, j int) bool {
-		if sites[i].file != sites[j].file {
-			return sites[i].file < sites[j].file
+	// the ssh tunnel gateway
+	sshSites, sshFiles, err := ixCollect(repo, fset, ixSSHPackages)
+	if err != nil {
+		return err
+	}
+	var execEnd []ixFact // how the upper bound of handleNewChannel's payload slice was computed
+	nExec := 0
+	for _, s := range sshSites {
+		if s.file == "pkg/ssh/server.go" && s.fn == "TunnelServer.handleNewChannel" && s.operand == "req.Payload" && strings.HasPrefix(s.shape, ".slice (some") {
+			nExec++
+			for _, f := range s.facts {
+				if f.kind == "defPlus" {
+					execEnd = append(execEnd, f)
+				}
+			}
 		}
-		return sites[i].line < sites[j].line
-	})
+	}
+	if nExec != 1 {
+		return fail("pkg/ssh/server.go handleNewChannel: expected exactly one req.Payload[lo:hi], found %d", nExec)
+	}
+	// ssh.Unmarshal calls: the target's struct type with its field types, whether the error is tested and leaves
+	type unm struct {
+		fn, target string
+		fields     []string
+		checked    bool
+	}
+	var unms []unm
+	var gos [][2]string
+	recovers := 0
+	var rels []string
+	for rel := range sshFiles {
+		rels = append(rels, rel)
+	}
+	sort.Strings(rels)
+	structs := map[string]*ast.StructType{}
+	for _, rel := range rels {
+		for _, d := range sshFiles[rel].Decls {
+			if gd, ok := d.(*ast.GenDecl); ok {
+				for _, sp := range gd.Specs {
+					if ts, ok := sp.(*ast.TypeSpec); ok {
+						if st, ok := ts.Type.(*ast.StructType); ok {
+							structs[ts.Name.Name] = st
+						}
+					}
+				}
+			}
+		}
+	}
+	for _, rel := range rels {
+		for _, d := range sshFiles[rel].Decls {
+			fd, ok := d.(*ast.FuncDecl)
+			if !ok || fd.Body == nil {
+				continue
+			}
+			_, rt := lfRecvType(fd)
+			name := fd.Name.Name
+			if rt != "" {
+				name = rt + "." + name
+			}
+			// local variable declarations `x := T{}` / `var x T`
+			locals := map[string]string{}
+			checkedCalls := map[*ast.CallExpr]bool{}
+			isUnmarshal := func(c *ast.CallExpr) bool { return agSrc(fset, c.Fun) == "ssh.Unmarshal" && len(c.Args) == 2 }
+			ast.Inspect(fd.Body, func(n ast.Node) bool {
+				switch x := n.(type) {
+				case *ast.AssignStmt:
+					if x.Tok == token.DEFINE && len(x.Lhs) == 1 && len(x.Rhs) == 1 {
+						if id, ok := x.Lhs[0].(*ast.Ident); ok {
+							if cl, ok := x.Rhs[0].(*ast.CompositeLit); ok && cl.Type != nil {
+								locals[id.Name] = agSrc(fset, cl.Type)
+							}
+						}
+					}
+				case *ast.ValueSpec:
+					if x.Type != nil {
+						for _, nm := range x.Names {
+							locals[nm.Name] = agSrc(fset, x.Type)
+						}
+					}
+				case *ast.IfStmt:
+					if as, ok := x.Init.(*ast.AssignStmt); ok && len(as.Rhs) == 1 && len(as.Lhs) == 1 {
+						if c, ok := as.Rhs[0].(*ast.CallExpr); ok && isUnmarshal(c) {
+							if agSrc(fset, x.Cond) == agSrc(fset, as.Lhs[0])+" != nil" && ixTerminates(x.Body.List) {
+								checkedCalls[c] = true
+							}
+						}
+					}
+				case *ast.GoStmt:
+					callee := agSrc(fset, x.Call.Fun)
+					if _, lit := x.Call.Fun.(*ast.FuncLit); lit {
+						callee = "func"
+					}
+					gos = append(gos, [2]string{name, callee})
+				case *ast.CallExpr:
+					if id, ok := x.Fun.(*ast.Ident); ok && id.Name == "recover" {
+						recovers++
+					}
+				}
+				return true
+			})
+			ast.Inspect(fd.Body, func(n ast.Node) bool {
+				c, ok := n.(*ast.CallExpr)
+				if !ok || !isUnmarshal(c) {
+					return true
+				}
+				u := unm{fn: name, target: "?", checked: checkedCalls[c]}
+				if ue, ok := c.Args[1].(*ast.UnaryExpr); ok && ue.Op == token.AND {
+					if id, ok := ue.X.(*ast.Ident); ok {
+						u.target = locals[id.Name]
+					}
+				}
+				if st, ok := structs[u.target]; ok {
+					for _, f := range st.Fields.List {
+						k := len(f.Names)
+						if k == 0 {
+							k = 1
+						}
+						for j := 0; j < k; j++ {
+							u.fields = append(u.fields, agSrc(fset, f.Type))
+						}
+					}
+				}
+				unms = append(unms, u)
+				return true
+			})
+		}
+	}
+	if len(unms) == 0 {
+		return fail("pkg/ssh: no ssh.Unmarshal call found (extractor blind?)")
+	}
 	var b strings.Builder
 	b.WriteString("/- GENERATED by translate/gen_indexfacts.go from the frp source tree. Do not edit. -/\n")
 	b.WriteString("import Frp.Model.UserInput\n")
 	b.WriteString("namespace Frp.Gen.IndexFacts\nopen Frp.UserIn\n\n")
 	b.WriteString("/-- every `x[i]` / `x[a:b]` of pkg/util/http, pkg/util/vhost, pkg/util/tcpmux with the guards that dominate it -/\n")
-	b.WriteString("def sites : List IdxSite :=\n  [")
-	for i, s := range sites {
+	b.WriteString("def sites : List IdxSite :=\n")
+	ixWriteSites(&b, sites)
+	b.WriteString("\n/-- the same for pkg/ssh (the ssh tunnel gateway): request payloads are chosen by the ssh client -/\n")
+	b.WriteString("def sshSites : List IdxSite :=\n")
+	ixWriteSites(&b, sshSites)
+	b.WriteString("\n/-- how the upper bound of `req.Payload[4:end]` in TunnelServer.handleNewChannel is computed: `end := k + E` with E a\n")
+	b.WriteString("    big-endian uint32 read from the payload, and the TYPE the sum is computed in (`.u32`: it wraps modulo 2^32) -/\n")
+	b.WriteString("def sshExecEnd : List GFact :=\n  [")
+	for i, f := range execEnd {
 		if i > 0 {
-			b.WriteString(",\n   ")
+			b.WriteString(", ")
 		}
-		fs := make([]string, len(s.facts))
-		for k, f := range s.facts {
-			fs[k] = f.lean()
-		}
-		fmt.Fprintf(&b, "⟨%s, %s, %d, %s, %s, .%s, %s, [%s]⟩", agLeanStr(s.file), agLeanStr(s.fn), s.line, agLeanStr(s.expr), agLeanStr(s.operand),
-			s.opKind, s.shape, strings.Join(fs, ", "))
+		b.WriteString(f.lean())
 	}
-	b.WriteString("]\n\nend Frp.Gen.IndexFacts\n")
+	b.WriteString("]\n\n/-- every ssh.Unmarshal call of pkg/ssh: function, target struct, its field types, error tested and left on -/\n")
+	b.WriteString("def sshUnmarshals : List (String × String × List String × Bool) :=\n  [")
+	for i, u := range unms {
+		if i > 0 {
+			b.WriteString(", ")
+		}
+		fs := make([]string, len(u.fields))
+		for k, f := range u.fields {
+			fs[k] = agLeanStr(f)
+		}
+		fmt.Fprintf(&b, "(%s, %s, [%s], %v)", agLeanStr(u.fn), agLeanStr(u.target), strings.Join(fs, ", "), u.checked)
+	}
+	b.WriteString("]\n\n/-- every `go` statement of pkg/ssh (function, callee) and the number of recover() calls in the package -/\n")
+	b.WriteString("def sshGoStmts : List (String × String) :=\n  [")
+	for i, g := range gos {
+		if i > 0 {
+			b.WriteString(", ")
+		}
+		fmt.Fprintf(&b, "(%s, %s)", agLeanStr(g[0]), agLeanStr(g[1]))
+	}
+	fmt.Fprintf(&b, "]\n\ndef sshRecoverCalls : Nat := %d\n", recovers)
+	b.WriteString("\nend Frp.Gen.IndexFacts\n")
 	return os.WriteFile(filepath.Join(out, "IndexFacts.lean"), []byte(b.String()), 0o644)
 }
